@@ -10,11 +10,15 @@
         scalar   cloned->f = node->f;
         ptr      cloned->f = clone_ast_node(node->f.get());
         vec      for (const auto &x : node->f) { cloned->f.push_back(clone_ast_node(x.get())); }
+        indirect for (const auto &x : node->f) { S c; c.g = x.g; ... c.body = clone_ast_node(x.body.get());
+                                                 cloned->f.push_back(std::move(c)); }
   (c) what `substitute_type_parameters` touches:
         strings  node->f = substituted;
         recompute node->g = parse_type_from_string(node->f);
         ptr      substitute_type_parameters(node->f.get(), type_map);
         vec      for (const auto &x : node->f) { substitute_type_parameters(x.get(), type_map); }
+        indirect for (auto &x : node->f) { substitute_type_parameters(x.body.get(), type_map); ... }
+        strvec   for (auto &x : node->f) { x = substitute_generic_type_name(x, type_map); }
 
 into coq/C11/Gen_CloneFields.v.  Nothing is assumed about WHICH fields exist.  Any shape that is not
 recognised raises TranslatorError; the caller then keeps the last generated file and records
@@ -141,10 +145,23 @@ def extract(repo):
     for v, src_f, dst_f, v2 in c_vec:
         if src_f != dst_f or v != v2:
             raise TranslatorError("clone_ast_node: vector loop over %s pushes into %s" % (src_f, dst_f))
-    cloned = {"ptr": [a for a, _ in c_ptr], "vec": [b for _, b, _, _ in c_vec], "scalar": [a for a, _ in c_sc]}
+    # a vector of structs that own a body: the loop must push a copy whose body is cloned, into the same member
+    c_ind = []
+    for m in re.finditer(r"for\s*\(\s*const\s+auto\s*&\s*(\w+)\s*:\s*node->(\w+)\s*\)\s*\{(?P<body>[^{}]*)\}", cb):
+        v, f, body = m.group(1), m.group(2), m.group("body")
+        mm = re.search(r"(\w+)\.(\w+)\s*=\s*clone_ast_node\(\s*%s\.(\w+)\.get\(\)\s*\)" % re.escape(v), body)
+        if not mm:
+            continue
+        if mm.group(2) != mm.group(3) or not re.search(r"cloned->%s\.push_back\(\s*std::move\(\s*%s\s*\)\s*\)" % (
+                re.escape(f), re.escape(mm.group(1))), body):
+            raise TranslatorError("clone_ast_node: loop over %s is not a member-wise copy into the same member" % f)
+        c_ind.append(f)
+    cloned = {"ptr": [a for a, _ in c_ptr], "vec": [b for _, b, _, _ in c_vec], "scalar": [a for a, _ in c_sc],
+              "indirect": c_ind}
     n_clone_calls = len(re.findall(r"clone_ast_node\(", cb))
-    if n_clone_calls != len(c_ptr) + len(c_vec):
-        raise TranslatorError("clone_ast_node: %d recursive calls, %d recognised" % (n_clone_calls, len(c_ptr) + len(c_vec)))
+    if n_clone_calls != len(c_ptr) + len(c_vec) + len(c_ind):
+        raise TranslatorError("clone_ast_node: %d recursive calls, %d recognised" % (
+            n_clone_calls, len(c_ptr) + len(c_vec) + len(c_ind)))
     if not cloned["ptr"] and not cloned["vec"]:
         raise TranslatorError("clone_ast_node: no copied children recognised")
     allnames = set(n for n, _ in members)
@@ -162,10 +179,19 @@ def extract(repo):
     s_vec = re.findall(r"for\s*\(\s*const\s+auto\s*&\s*(\w+)\s*:\s*node->(\w+)\s*\)\s*\{?\s*substitute_type_parameters\(\s*(\w+)\.get\(\)",
                        sb)
     s_ptr = re.findall(r"substitute_type_parameters\(\s*node->(\w+)\.get\(\)\s*,", sb)
+    s_ind = [f for v, f, v2 in re.findall(
+        r"for\s*\(\s*(?:const\s+)?auto\s*&\s*(\w+)\s*:\s*node->(\w+)\s*\)\s*\{\s*substitute_type_parameters\(\s*(\w+)\.\w+\.get\(\)", sb)
+        if v == v2]
+    s_sv = [f for v, f, v2, v3 in re.findall(
+        r"for\s*\(\s*auto\s*&\s*(\w+)\s*:\s*node->(\w+)\s*\)\s*\{\s*(\w+)\s*=\s*substitute_generic_type_name\(\s*(\w+)\s*,\s*type_map\s*\)",
+        sb) if v == v2 == v3]
     n_sub_calls = len(re.findall(r"substitute_type_parameters\(", sb))
-    if n_sub_calls != len(s_ptr) + len(s_vec):
-        raise TranslatorError("substitute_type_parameters: %d recursive calls, %d recognised" % (n_sub_calls, len(s_ptr) + len(s_vec)))
-    subst = {"strings": s_str, "recompute": [list(x) for x in s_re], "ptr": s_ptr, "vec": [b for _, b, _ in s_vec]}
+    if n_sub_calls != len(s_ptr) + len(s_vec) + len(s_ind):
+        raise TranslatorError("substitute_type_parameters: %d recursive calls, %d recognised" % (
+            n_sub_calls, len(s_ptr) + len(s_vec) + len(s_ind)))
+    guarded = bool(re.search(r"node->type_name\s*!=\s*type_name_before", sb))
+    subst = {"strings": s_str, "recompute": [list(x) for x in s_re], "ptr": s_ptr, "vec": [b for _, b, _ in s_vec],
+             "indirect": s_ind, "strvec": s_sv, "type_info_only_when_rewritten": guarded}
     if not s_str:
         raise TranslatorError("substitute_type_parameters: no rewritten string member recognised")
     return {"ast": tab, "cloned": cloned, "subst": subst,
@@ -197,12 +223,17 @@ def to_coq(t):
         "(* (b) members copied by clone_ast_node *)",
         "Definition cloned_ptr_fields : list string := %s." % _l(c["ptr"]),
         "Definition cloned_vec_fields : list string := %s." % _l(c["vec"]),
+        "Definition cloned_indirect_fields : list string := %s." % _l(c["indirect"]),
         "Definition cloned_scalar_fields : list string := %s." % _l(c["scalar"]),
         "",
         "(* (c) members rewritten / descended into by substitute_type_parameters *)",
         "Definition subst_string_fields : list string := %s." % _l(s["strings"]),
         "Definition subst_ptr_fields : list string := %s." % _l(s["ptr"]),
         "Definition subst_vec_fields : list string := %s." % _l(s["vec"]),
+        "Definition subst_indirect_fields : list string := %s." % _l(s["indirect"]),
+        "Definition subst_strvec_fields : list string := %s." % _l(s["strvec"]),
+        "(* type_info is recomputed only when type_name was rewritten to a builtin/typedef name *)",
+        "Definition subst_type_info_guarded : bool := %s." % ("true" if s["type_info_only_when_rewritten"] else "false"),
         "",
     ]
     return "\n".join(lines)
